@@ -19,6 +19,7 @@ from ..data import getDBConnection
 from ..data.observation import Observation
 from ..physics.constants import DAYS2SEC
 from ..physics.orbit_determination.lambert import determineTransferDirection
+from ..physics.orbits.kepler import keplerThirdLaw
 from ..physics.orbits.utils import getPeriod, getSemiMajorAxis
 from ..physics.time.stardate import JulianDate, ScenarioTime
 from ..physics.transforms.methods import radarObs2eciPosition
@@ -136,8 +137,13 @@ class InitialOrbitDetermination(ABC):
         Returns:
             ``bool``: whether or not obs are from the same pass
         """
-        sma = getSemiMajorAxis(norm(ob1_eci[:3]), norm(ob1_eci[3:]))
-        period = getPeriod(sma)
+        if len(ob1_eci) > 3:
+            sma = getSemiMajorAxis(norm(ob1_eci[:3]), norm(ob1_eci[3:]))
+            period = getPeriod(sma)
+        else:
+            # [NOTE]: only a position is known (e.g. converted from a radar observation), so the
+            #   velocity cannot be used: assume a circular orbit as a first approximation.
+            period = keplerThirdLaw(ob1_eci)
         transit_time = (ob2_jdate - ob1_jdate) * DAYS2SEC
         if transit_time >= period:
             return False
